@@ -21,6 +21,13 @@ def run(ctx, viol, tag):
                                  f'{[c["singles"][f]["exc"] for f in c["single_failures"]]}'})
         for r in c['requests']:
             k += 1
+            if r.get('repeated') and tag == 'C03':
+                viol.append({'signature': 'oracle:multi-field-request-runs-a-function-twice', 'case': {'spec': c['spec'], 'key': c['key'], 'fields': r['fields'], 'how': r['how']},
+                             'observed': r['repeated'],
+                             'what': f'{tag}: pipeline {i}: ONE request of the fields {r["fields"]} (' + ('layer._compile(fields)(key)' if r['how'] == 'compile' else 'layer(key)[fields]')
+                                     + f') ran user functions more than once on the same arguments: {r["repeated"]}'})
+            if tag == 'C03':
+                continue
             exp = {'t': [c['singles'][f]['val'] for f in r['fields']]}
             if r.get('val') != exp:
                 viol.append({'signature': 'oracle:multi-field-request-order', 'case': {'spec': c['spec'], 'key': c['key'], 'fields': r['fields'], 'how': r['how'],
